@@ -878,6 +878,253 @@ fn stress(unit: u64, ctx: &mut Ctx) {
     }
 }
 
+// ------------------------------------------------------------------------------------------------ the shipped binary
+/// Request bursts against the server AS SHIPPED: the `lsp` binary built from the working tree (crates/lsp/src/main.rs
+/// with its whole middleware stack), spoken to over stdio, pinned to 1..16 CPUs (the stack's concurrency limit follows
+/// the number of CPUs it may use). After the opening handshake a burst of N requests - optionally with an edit in the
+/// middle - is written in one piece; every request must be answered. A stall is decided by a certificate, not by
+/// time: every thread of the server process is asleep, in the same wait, with no CPU time used between two samples,
+/// while the client has nothing left to send and owes no reply.
+fn binary_burst(unit: u64, k: u64, ctx: &mut Ctx) {
+    let mut rng = Rng::derive(ctx.seed, 0x8b00, unit * 100 + k);
+    let cpus = [1usize, 2, 3, 4, 8, 16][rng.below(6)];
+    let burst = match rng.below(6) {
+        0 => cpus,
+        1 => cpus + 1,
+        2 => 2 * cpus + 1,
+        3 => 4 * cpus + 3,
+        4 => 64,
+        _ => rng.range(1, 200),
+    };
+    let with_edit = rng.chance(1, 3);
+    let n_defs = [50usize, 400, 1500][rng.below(3)];
+    run_burst(cpus, burst, with_edit, n_defs, rng.next(), ctx);
+}
+fn run_burst(cpus: usize, burst: usize, with_edit: bool, n_defs: usize, rng_seed: u64, ctx: &mut Ctx) {
+    use std::io::{Read, Write};
+    use std::process::{Command, Stdio};
+    let exe = format!("{}/target/release/lsp", crate::core::VERIF_ROOT);
+    if !std::path::Path::new(&exe).exists() {
+        ctx.feature("watchdog");
+        ctx.note("the lsp binary has not been built (./check builds it): no verdict for the request-burst units");
+        return;
+    }
+    let mut rng = Rng::derive(rng_seed, 0x8b01, 0);
+    static BURSTS: std::sync::atomic::AtomicU64 = std::sync::atomic::AtomicU64::new(0);
+    let dir = format!("{}/target/work/lsp/C08bin.{}.{}", crate::core::VERIF_ROOT, std::process::id(), BURSTS.fetch_add(1, Ordering::SeqCst));
+    let _ = std::fs::remove_dir_all(&dir);
+    let _ = std::fs::create_dir_all(&dir);
+    let mut text = String::from("class A<int x> { int f = x; }\n");
+    for i in 0..n_defs {
+        text.push_str(&format!("def d{} : A<{}> {{ let f = {}; }}\n", i, i, i));
+    }
+    let _ = std::fs::write(format!("{}/a.td", dir), &text);
+    let uri = format!("file://{}/a.td", dir);
+    let case = json!({"kind": "binary_burst", "cpus": cpus, "burst": burst, "with_edit": with_edit, "defs": n_defs, "rng_seed": rng_seed.to_string()});
+    ctx.current_json(&case);
+    let child = Command::new("taskset").args(["-c", &format!("0-{}", cpus - 1), &exe]).stdin(Stdio::piped()).stdout(Stdio::piped()).stderr(Stdio::null()).spawn();
+    let Ok(mut child) = child else {
+        ctx.feature("watchdog");
+        ctx.note("could not start the lsp binary under taskset: no verdict");
+        return;
+    };
+    let mut stdin = child.stdin.take().unwrap();
+    let mut stdout = child.stdout.take().unwrap();
+    let pid = child.id();
+    let (tx, rx) = std::sync::mpsc::channel::<Value>();
+    let reader = std::thread::spawn(move || {
+        let mut buf: Vec<u8> = Vec::new();
+        let mut chunk = vec![0u8; 65536];
+        loop {
+            loop {
+                let Some(hend) = buf.windows(4).position(|w| w == b"\r\n\r\n") else { break };
+                let header = String::from_utf8_lossy(&buf[..hend]).to_string();
+                let len = header.lines().find_map(|l| l.strip_prefix("Content-Length:").map(|v| v.trim().parse::<usize>().unwrap_or(0))).unwrap_or(0);
+                if buf.len() < hend + 4 + len {
+                    break;
+                }
+                let body: Vec<u8> = buf[hend + 4..hend + 4 + len].to_vec();
+                buf.drain(..hend + 4 + len);
+                if let Ok(v) = serde_json::from_slice::<Value>(&body) {
+                    if tx.send(v).is_err() {
+                        return;
+                    }
+                }
+            }
+            match stdout.read(&mut chunk) {
+                Ok(0) | Err(_) => return,
+                Ok(n) => buf.extend_from_slice(&chunk[..n]),
+            }
+        }
+    });
+    let frame = |v: &Value| {
+        let b = v.to_string();
+        format!("Content-Length: {}\r\n\r\n{}", b.len(), b).into_bytes()
+    };
+    let mut answered: BTreeSet<u64> = BTreeSet::new();
+    let mut published = 0u64;
+    let mut owed_replies = 0u64; // server-to-client requests are answered at once, so this stays 0
+    let mut pump = |answered: &mut BTreeSet<u64>, published: &mut u64, stdin: &mut std::process::ChildStdin, wait: Duration| -> bool {
+        match rx.recv_timeout(wait) {
+            Ok(v) => {
+                if v.get("method").is_some() && v.get("id").is_some() {
+                    let _ = stdin.write_all(&frame(&json!({"jsonrpc": "2.0", "id": v["id"], "result": Value::Null})));
+                    let _ = stdin.flush();
+                } else if v.get("method").is_some() {
+                    if v["method"] == "textDocument/publishDiagnostics" {
+                        *published += 1;
+                    }
+                } else if let Some(id) = v["id"].as_u64() {
+                    answered.insert(id);
+                }
+                true
+            }
+            Err(_) => false,
+        }
+    };
+    let _ = owed_replies;
+    owed_replies = 0;
+    // handshake and opening
+    let _ = stdin.write_all(&frame(&json!({"jsonrpc": "2.0", "id": 0, "method": "initialize", "params": {"processId": Value::Null, "rootUri": Value::Null, "capabilities": {}}})));
+    let _ = stdin.flush();
+    let t0 = Instant::now();
+    while !answered.contains(&0) && t0.elapsed() < SETTLE_WATCHDOG {
+        pump(&mut answered, &mut published, &mut stdin, Duration::from_millis(50));
+    }
+    let mut opening = Vec::new();
+    opening.extend(frame(&json!({"jsonrpc": "2.0", "method": "initialized", "params": {}})));
+    opening.extend(frame(&json!({"jsonrpc": "2.0", "method": "textDocument/didOpen", "params": {"textDocument": {"uri": uri, "languageId": "tablegen", "version": 1, "text": text}}})));
+    let _ = stdin.write_all(&opening);
+    let _ = stdin.flush();
+    let t0 = Instant::now();
+    while published == 0 && t0.elapsed() < SETTLE_WATCHDOG {
+        pump(&mut answered, &mut published, &mut stdin, Duration::from_millis(50));
+    }
+    let ready = answered.contains(&0) && published > 0;
+    // the burst, in one write
+    let mut blob = Vec::new();
+    let methods = ["textDocument/hover", "textDocument/definition", "textDocument/references", "textDocument/documentSymbol", "textDocument/inlayHint", "textDocument/completion", "textDocument/documentLink", "textDocument/foldingRange"];
+    let first = rng.below(8);
+    let uniform = rng.chance(1, 2);
+    for i in 0..burst {
+        let m = methods[if uniform { first } else { (first + i) % 8 }];
+        let line = 1 + rng.below(n_defs) as u64;
+        let td = json!({"uri": uri});
+        let params = match m {
+            "textDocument/documentSymbol" | "textDocument/documentLink" | "textDocument/foldingRange" => json!({"textDocument": td}),
+            "textDocument/inlayHint" => json!({"textDocument": td, "range": {"start": {"line": 0, "character": 0}, "end": {"line": line + 20, "character": 0}}}),
+            "textDocument/references" => json!({"textDocument": td, "position": {"line": line, "character": 10}, "context": {"includeDeclaration": true}}),
+            _ => json!({"textDocument": td, "position": {"line": line, "character": 10}}),
+        };
+        blob.extend(frame(&json!({"jsonrpc": "2.0", "id": 1000 + i as u64, "method": m, "params": params})));
+        if with_edit && i == burst / 2 {
+            blob.extend(frame(&json!({"jsonrpc": "2.0", "method": "textDocument/didChange", "params": {"textDocument": {"uri": uri, "version": 2}, "contentChanges": [{"text": format!("{}def extra : A<7>;\n", text)}]}})));
+        }
+    }
+    let wrote = ready && stdin.write_all(&blob).is_ok() && stdin.flush().is_ok();
+    let want: BTreeSet<u64> = (0..burst as u64).map(|i| 1000 + i).collect();
+    let mut stalled: Option<String> = None;
+    let mut gave_up = false;
+    if wrote {
+        let mut idle_since = Instant::now();
+        while !want.is_subset(&answered) {
+            if pump(&mut answered, &mut published, &mut stdin, Duration::from_millis(100)) {
+                idle_since = Instant::now();
+                continue;
+            }
+            if idle_since.elapsed() >= Duration::from_secs(3) {
+                // nothing has arrived for a while: is the server still doing anything at all?
+                match process_idle_certificate(pid) {
+                    Ok(c) => {
+                        stalled = Some(c);
+                        break;
+                    }
+                    Err(why) => {
+                        if idle_since.elapsed() >= Duration::from_secs(60) {
+                            ctx.note(format!("request burst unanswered for 60 s but no stall certificate ({}): no verdict", why));
+                            gave_up = true;
+                            break;
+                        }
+                    }
+                }
+            }
+        }
+    }
+    ctx.eval();
+    ctx.feature("binary_bursts");
+    ctx.feature(&format!("burst_cpus:{}", cpus));
+    if burst > cpus {
+        ctx.feature("burst_larger_than_cpu_count");
+    }
+    if with_edit {
+        ctx.feature("burst_with_edit");
+    }
+    ctx.feature_n("burst_requests", burst as u64);
+    ctx.nontrivial(fnv64(case.to_string().as_bytes()));
+    if !ready || !wrote {
+        ctx.feature("watchdog");
+        ctx.note(format!("the binary did not complete the opening handshake (initialize answered: {}, diagnostics published: {}): no verdict", answered.contains(&0), published));
+    } else if let Some(c) = stalled {
+        let missing = want.difference(&answered).count();
+        ctx.violation(
+            format!("no-progress:request-burst:{}", if burst > cpus { "more-requests-than-cpus" } else { "at-most-as-many-requests-as-cpus" }),
+            format!("shipped binary on {} CPU(s): {} of {} requests written in one burst{} were never answered; {}", cpus, missing, burst, if with_edit { " (with an edit in the middle)" } else { "" }, c),
+            case.clone(),
+        );
+    } else if gave_up {
+        ctx.feature("watchdog");
+    } else {
+        ctx.feature("burst_fully_answered");
+    }
+    let _ = stdin.write_all(&frame(&json!({"jsonrpc": "2.0", "id": 9, "method": "shutdown", "params": Value::Null})));
+    let _ = stdin.write_all(&frame(&json!({"jsonrpc": "2.0", "method": "exit", "params": Value::Null})));
+    let _ = stdin.flush();
+    drop(stdin);
+    std::thread::sleep(Duration::from_millis(20));
+    let _ = child.kill();
+    let _ = child.wait();
+    let _ = reader.join();
+    let _ = std::fs::remove_dir_all(&dir);
+}
+
+/// Every thread of process `pid` is asleep, in an unchanged wait (same context-switch count), and the process used no
+/// CPU time between two samples 700 ms apart: nothing in it is working, and nothing will unless new input arrives.
+fn process_idle_certificate(pid: u32) -> Result<String, String> {
+    fn sample(pid: u32) -> Result<(Vec<(i32, char, u64)>, u64), String> {
+        let mut v = Vec::new();
+        for e in std::fs::read_dir(format!("/proc/{}/task", pid)).map_err(|e| e.to_string())?.flatten() {
+            let Ok(tid) = e.file_name().to_string_lossy().parse::<i32>() else { continue };
+            let status = std::fs::read_to_string(format!("/proc/{}/task/{}/status", pid, tid)).map_err(|e| e.to_string())?;
+            let mut state = '?';
+            let mut sw = 0u64;
+            for l in status.lines() {
+                if let Some(r) = l.strip_prefix("State:") {
+                    state = r.trim().chars().next().unwrap_or('?');
+                } else if let Some(r) = l.strip_prefix("voluntary_ctxt_switches:").or_else(|| l.strip_prefix("nonvoluntary_ctxt_switches:")) {
+                    sw += r.trim().parse::<u64>().unwrap_or(0);
+                }
+            }
+            v.push((tid, state, sw));
+        }
+        v.sort();
+        let stat = std::fs::read_to_string(format!("/proc/{}/stat", pid)).map_err(|e| e.to_string())?;
+        let after = stat.rsplit(')').next().unwrap_or("");
+        let f: Vec<&str> = after.split_whitespace().collect();
+        let cpu = f.get(11).and_then(|x| x.parse::<u64>().ok()).unwrap_or(0) + f.get(12).and_then(|x| x.parse::<u64>().ok()).unwrap_or(0);
+        Ok((v, cpu))
+    }
+    let a = sample(pid)?;
+    std::thread::sleep(Duration::from_millis(700));
+    let b = sample(pid)?;
+    if a != b {
+        return Err("threads of the server were scheduled or used CPU time between the samples".into());
+    }
+    if let Some(t) = a.0.iter().find(|t| t.1 != 'S') {
+        return Err(format!("thread {} is in state {}", t.0, t.1));
+    }
+    Ok(format!("all {} threads of the server process are asleep in an unchanged wait and the process used no CPU time between two samples", a.0.len()))
+}
+
 fn send_task_at(s: &mut Session, k: TaskKind, line: u64) -> Option<u64> {
     let td = json!({"uri": s.uri("/ws/a.td")});
     let pos = json!({"line": line, "character": 7});
@@ -925,7 +1172,7 @@ impl Check for C08 {
         "C08"
     }
     fn units(&self, tier: Tier, _seed: u64) -> u64 {
-        scenarios(tier).len() as u64 + tier.pick(8, 64)
+        scenarios(tier).len() as u64 + tier.pick(8, 64) + tier.pick(12, 48)
     }
     fn run_unit(&self, unit: u64, ctx: &mut Ctx) {
         let sc = scenarios(ctx.tier);
@@ -941,13 +1188,28 @@ impl Check for C08 {
                 ctx.features.insert(format!("event:{}", k), *v);
             }
             ctx.metric_max("max_live_snapshots", st.max_live as f64);
-        } else {
+        } else if (unit as usize) < sc.len() + ctx.tier.pick(8, 64) {
             for _ in 0..ctx.tier.pick(2, 6) {
                 stress(unit, ctx);
+            }
+        } else {
+            for k in 0..ctx.tier.pick(3, 6) {
+                binary_burst(unit, k, ctx);
             }
         }
     }
     fn replay(&self, case: &Value, ctx: &mut Ctx) {
+        if case["kind"] == "binary_burst" {
+            run_burst(
+                case["cpus"].as_u64().unwrap_or(2) as usize,
+                case["burst"].as_u64().unwrap_or(3) as usize,
+                case["with_edit"].as_bool().unwrap_or(false),
+                case["defs"].as_u64().unwrap_or(400) as usize,
+                case["rng_seed"].as_str().and_then(|s| s.parse().ok()).unwrap_or(0),
+                ctx,
+            );
+            return;
+        }
         if case["kind"] == "schedule" {
             let h = match case["handler"].as_str() {
                 Some("DidOpenOther") => Handler::DidOpenOther,
@@ -972,7 +1234,7 @@ impl Check for C08 {
         "CONTROLLED: the lsp hook callback blocks every server thread at its acquisition points (file-table read/write, salsa input write, task start); a scheduler grants one thread at a time, only when the modelled lock state lets the real acquisition succeed, and enumerates all grant orders depth-first by re-running the scenario on the real server (real tokio runtime, real locks) with a forced choice prefix. Scenarios: handler in {didChange of the root, didOpen of another document, didChange of an included open document, didChange of the root with unchanged text} against one in-flight snapshot task of each of the 9 kinds (8 request kinds + the diagnostics task of a preceding edit), quick also 2 and thorough all two-task combinations. A state where threads wait and none can be granted is a deadlock; the wait-for cycle over holders (not queue positions) is the witness; afterwards every request must have its response and the server must become idle. STRESS: uncontrolled sessions of 40-120 messages (edit bursts mixed with all request kinds) on a workspace whose analysis takes milliseconds, with seeded delays injected at the acquisition points; the same wait-for graph is maintained online and a stall is a violation only if it shows a cycle or passes the stall certificate (main loop inside a handler, every live snapshot task started, all of them asleep in one unchanged futex wait at two /proc/self/task samples while the monitor holds nobody back); a bare watchdog is no verdict. The same certificate decides a controlled schedule in which a granted thread never reaches its next hooked point. non-trivial = every schedule / session; distinct = distinct grant sequences".into()
     }
     fn floors(&self, tier: Tier) -> Vec<(&'static str, u64)> {
-        vec![("schedules", tier.pick(60, 1000)), ("handler:DidChangeRoot", 20), ("handler:DidOpenOther", 20), ("handler:DidChangeIncluded", 20), ("handler:DidChangeRootSameText", 20), ("task:Diagnostics", 6), ("task:Definition", 6), ("task:DocumentLink", 3), ("stress_sessions", tier.pick(16, 300)), ("event:VfsReadHeld", 100), ("event:SalsaWriteDone", 100)]
+        vec![("schedules", tier.pick(60, 1000)), ("handler:DidChangeRoot", 20), ("handler:DidOpenOther", 20), ("handler:DidChangeIncluded", 20), ("handler:DidChangeRootSameText", 20), ("task:Diagnostics", 6), ("task:Definition", 6), ("task:DocumentLink", 3), ("stress_sessions", tier.pick(16, 300)), ("binary_bursts", tier.pick(30, 250)), ("burst_larger_than_cpu_count", tier.pick(10, 100)), ("burst_fully_answered", tier.pick(30, 250)), ("event:VfsReadHeld", 100), ("event:SalsaWriteDone", 100)]
     }
     fn exhaustive(&self, tier: Tier) -> Option<String> {
         Some(format!("all grant orders at the hooked points for each of the {} scenarios (capped at {} schedules per scenario; a cap hit is reported as feature scenario_truncated)", scenarios(tier).len(), tier.pick(400, 4000)))
